@@ -265,8 +265,8 @@ def oracle(ctx, extra):
         k = r.random()
         if extra and i < len(extra) and isinstance(extra[i], str):
             doc = extra[i]
-        elif k < 0.15:
-            doc = gen_docs.showcase(r)
+        elif k < 0.2:
+            doc = gen_docs.showcase(r) if r.random() < 0.6 else gen_docs.special_slots(r)
         elif k < 0.6:
             doc = gen_docs.doc(r, plugins=names, directives=directives)
         elif k < 0.75:
@@ -297,7 +297,7 @@ def oracle(ctx, extra):
     known = [f for f in fails if f.get("class")]
     fails = [f for f in fails if not f.get("class")] + known[:3]
     return {"evaluations": n, "distinct_nontrivial": len(seen), "failures": fails, "known_finding_instances": len(known),
-            "rule": "15% plugin showcases (definition + use), 45% generated documents, 15% interrupt/lazy fragments, 13% mutated, 12% noise; configurations core / all "
+            "rule": "12% plugin showcases (definition + use), 8% documents with HTML-special characters in every slot of every plugin and core inline syntax (and near misses of each syntax), 40% generated documents, 15% interrupt/lazy fragments, 13% mutated, 12% noise; configurations core / all "
                     "plugins / all+speedup / footnotes+table+task_lists+fenced directives, escape on 75%, hard_wrap 25%; HTML "
                     "checked for strict nesting (escape on), every leaf of the renderer-less token list searched escaped and in "
                     "order, rendering that token list compared with direct conversion; every 4th iteration a core document "
